@@ -5,6 +5,10 @@ package circuitbreaker
 import (
 	"encoding/json"
 	"fmt"
+	"runtime"
+	"sort"
+	"sync"
+	"sync/atomic"
 	"testing"
 	"time"
 )
@@ -288,5 +292,122 @@ func TestVerifC08(t *testing.T) {
 		r := root.Fork(i)
 		in := c08GenCase(r, adv)
 		out.Emit(vfCase{ID: fmt.Sprintf("%s-cb-%d", src, i), Src: src, Grp: "cb", In: in, Obs: c08Run(in)})
+	}
+}
+
+// ---- thorough tier: concurrent callers (linearizability-style check) --------
+//
+// G goroutines run `K` call cycles (AcquirePermission, then RecordResult with the
+// returned id when admitted) on one breaker; the virtual clock stands still.
+// Every call and return is stamped with one atomic counter. The Coq side
+// searches for a linearization (respecting the real-time order of the stamps)
+// that the model replays with exactly these results and this final state.
+
+type c08LIn struct {
+	Pol  c08Pol `json:"pol"`
+	G    int    `json:"g"`
+	K    int    `json:"k"`
+	Seed uint64 `json:"seed"`
+}
+
+type c08LOp struct {
+	G    int   `json:"g"`
+	Call int64 `json:"call"`
+	Ret  int64 `json:"ret"`
+	K    int   `json:"k"`  // 0 acquire, 1 record
+	ID   int64 `json:"id"` // acquire: returned stateID; record: id passed
+	Err  bool  `json:"err"`
+	Flag int64 `json:"flag"` // acquire: permitted
+}
+
+type c08LObs struct {
+	Ops   []c08LOp `json:"ops"`
+	State int64    `json:"state"`
+	ID    int64    `json:"id"`
+}
+
+func c08RunLin(in c08LIn) (obs c08LObs) {
+	nowFunc = func() time.Time { return c08Base }
+	defer func() { nowFunc = time.Now }()
+	cb := New(in.Pol.policy())
+	var ctr int64
+	perG := make([][]c08LOp, in.G)
+	var wg sync.WaitGroup
+	start := make(chan struct{})
+	for g := 0; g < in.G; g++ {
+		wg.Add(1)
+		go func(g int) {
+			defer wg.Done()
+			r := vfNewRand(in.Seed).Fork(g)
+			<-start
+			for k := 0; k < in.K; k++ {
+				call := atomic.AddInt64(&ctr, 1)
+				if r.Bool() {
+					runtime.Gosched()
+				}
+				ok, id := cb.AcquirePermission()
+				ret := atomic.AddInt64(&ctr, 1)
+				f := int64(0)
+				if ok {
+					f = 1
+				}
+				perG[g] = append(perG[g], c08LOp{G: g, Call: call, Ret: ret, K: 0, ID: int64(id), Flag: f})
+				if !ok {
+					continue
+				}
+				if r.Bool() {
+					runtime.Gosched()
+				}
+				e := r.Chance(1, 2)
+				call = atomic.AddInt64(&ctr, 1)
+				if r.Bool() {
+					runtime.Gosched()
+				}
+				cb.RecordResult(id, e, 0)
+				ret = atomic.AddInt64(&ctr, 1)
+				perG[g] = append(perG[g], c08LOp{G: g, Call: call, Ret: ret, K: 1, ID: int64(id), Err: e})
+			}
+		}(g)
+	}
+	close(start)
+	wg.Wait()
+	for _, l := range perG {
+		obs.Ops = append(obs.Ops, l...)
+	}
+	sort.Slice(obs.Ops, func(i, j int) bool { return obs.Ops[i].Call < obs.Ops[j].Call })
+	cb.lock.Lock()
+	obs.State, obs.ID = int64(cb.state), int64(cb.stateID)
+	cb.lock.Unlock()
+	return
+}
+
+func TestVerifC08Lin(t *testing.T) {
+	out := vfOpen(t)
+	defer out.Close()
+	for _, sc := range vfStored("lin") {
+		var in c08LIn
+		if err := json.Unmarshal(sc.In, &in); err != nil {
+			t.Fatal(err)
+		}
+		out.Emit(vfCase{ID: sc.ID, Src: sc.Src, Grp: "lin", In: in, Obs: c08RunLin(in)})
+	}
+	if vfReplayOnly() {
+		return
+	}
+	root := vfNewRand(vfSeed())
+	src := "gen"
+	if vfStream() == "adv" {
+		src = "adv"
+	}
+	n := vfN(200)
+	shapes := [][2]int{{2, 1}, {2, 2}, {3, 1}, {4, 1}, {5, 1}, {2, 2}, {3, 1}}
+	for i := 0; i < n; i++ {
+		r := root.Fork(i)
+		p := c08Pol{Fthr: r.PickInt(50, 100, 1, 34, 67), Sthr: 100, Time: r.Chance(1, 3), Size: r.Range(1, 3),
+			Perm: r.Range(0, 2), SlowDur: 1_000_000_000, Wait: 0}
+		p.Min = r.Range(0, p.Size)
+		sh := shapes[r.Intn(len(shapes))]
+		in := c08LIn{Pol: p, G: sh[0], K: sh[1], Seed: r.U64()}
+		out.Emit(vfCase{ID: fmt.Sprintf("%s-lin-%d", src, i), Src: src, Grp: "lin", In: in, Obs: c08RunLin(in)})
 	}
 }
